@@ -401,7 +401,7 @@ func (e *Engine) trustedBase() []string {
 	out = append(out,
 		"govc itself: Go-subset semantics, VC generation, cone-of-influence filter (drops hypotheses only)",
 		"SMT solvers: an unsat answer from any one of z3 5.1.0 / cvc5 1.0 / z3 4.8.12 is believed",
-		"recursive spec functions are well-founded (their definitions are used one unfold() instance at a time); those that read the heap (nsName, envName over the parent chain of groups) read only fields that are fixed once the parser is built (parent, Namespace, EnvNamespace, NamespaceDelimiter)")
+		"recursive spec functions are well-founded (their definitions are used one unfold() instance at a time); those that read the heap (nsName, envName over the parent chain of groups) read only fields that are fixed once the parser is built (parent, Namespace, EnvNamespace, NamespaceDelimiter); catChunks reads trace entries below ncalls, which are never rewritten")
 	return out
 }
 
@@ -410,6 +410,9 @@ func (e *Engine) assumptions() []string {
 		"64-bit int/uint arithmetic is treated as mathematical (no overflow obligation); narrower types and conversions get range obligations",
 		"slices and maps are modelled as values: a function that writes through a slice/map parameter or through a map alias is rejected as engine-limit, append is functional (no aliasing through spare capacity), cap() is not modelled",
 		"strings are byte sequences (SMT strings, one character per byte); bytes read are in 0..255; the ordering of strings (<, <=) is an uninterpreted total relation",
+		"borrowed storage: the one place where a slice is only lent (bufio.Reader.ReadLine's line, clause `invalidates` + transient()) is modelled by forgetting, at the next ReadLine, every local []byte that may still share it; borrowed slices stored in struct fields or handed to callees are not tracked",
+		"allocation: a new object's reference lies above a per-type frontier (an upper bound of all references handed out so far on the path, unknown but monotone at loop heads and joins); allocated(p) in a precondition is taken as a truth of the language (every reference a caller can pass exists already) and is not re-checked at calls",
+		"string(append(a, b...)) == string(a) + string(b) for []byte is built in",
 		"pointers to non-package types (*string, ...) have immutable pointees",
 		"user callbacks and interface methods (Execute, handlers, Unmarshaler, ...) do not modify the parser's own data structures; their results are unconstrained",
 		"build configuration GOOS=linux, tags verif: optstyle_windows.go and termsize_windows.go are not part of the verified text",
